@@ -21,7 +21,10 @@ type unsupportedErr struct{ msg string }
 func unsupported(msg string) unsupportedErr { return unsupportedErr{msg} }
 
 type abortPath struct{ reason string }
-type budgetErr struct{ msg string }
+type budgetErr struct {
+	msg  string
+	hang bool // loop budget: a candidate non-termination
+}
 type assertStop struct{ msg string }
 
 type rtError struct{ msg string }
@@ -425,7 +428,13 @@ func (e *Explorer) runPath(solver *Solver, prefix []int) (x *pathCtx) {
 				outcome = "assert"
 			case budgetErr:
 				outcome = "budget"
-				e.noteInconclusive("budget: " + p.msg)
+				if p.hang {
+					// candidate non-termination: confirmed only if the native
+					// replay does not finish either
+					x.violation("hang", "evaluation did not terminate within the engine budget ("+p.msg+")", "", nil, i.panicStack)
+				} else {
+					e.noteInconclusive("budget: " + p.msg)
+				}
 			case unsupportedErr:
 				outcome = "unsupported"
 				e.noteInconclusive("unsupported: " + p.msg)
@@ -541,7 +550,7 @@ func (x *pathCtx) decide(alts []*Term, tag string) int {
 	}
 	d := len(x.decisions)
 	if d >= x.ex.opts.MaxDepth {
-		panic(budgetErr{fmt.Sprintf("decision depth %d (%s)", d, tag)})
+		panic(budgetErr{msg: fmt.Sprintf("decision depth %d (%s)", d, tag), hang: true})
 	}
 	if d < len(x.prefix) {
 		i := x.prefix[d]
@@ -704,7 +713,7 @@ func (x *pathCtx) modelToInputs(model map[string]uint64) map[string]string {
 func (x *pathCtx) tick() {
 	x.instr++
 	if x.instr > x.ex.opts.MaxInstr {
-		panic(budgetErr{fmt.Sprintf("instruction budget %d", x.ex.opts.MaxInstr)})
+		panic(budgetErr{msg: fmt.Sprintf("instruction budget %d", x.ex.opts.MaxInstr), hang: true})
 	}
 }
 
